@@ -147,6 +147,10 @@ theorem run_fromRotation :
     (fromRotation a b).run env denv um = Val.fromRotation (a.run env denv um) (b.run env denv um) := rfl
 theorem run_toRotation0 : (toRotation0 a).run env denv um = Val.toRotation0 (a.run env denv um) := rfl
 theorem run_toRotation1 : (toRotation1 a).run env denv um = Val.toRotation1 (a.run env denv um) := rfl
+theorem run_fromRaDecLength (c : ProgW ℝ) : (fromRaDecLength a b c).run env denv um
+    = Val.smul (Val.cat (Val.cat (Val.smul (Val.sc1 (.cos (.var 0)) (b.run env denv um)) (Val.sc1 (.cos (.var 0)) (a.run env denv um)))
+        (Val.smul (Val.sc1 (.cos (.var 0)) (b.run env denv um)) (Val.sc1 (.sin (.var 0)) (a.run env denv um))))
+        (Val.sc1 (.sin (.var 0)) (b.run env denv um))) (c.run env denv um) := rfl
 theorem run_sep : (sep a b).run env denv um = Val.sep (a.run env denv um) (b.run env denv um) := rfl
 theorem run_twovec (axis1 axis2 : ℕ) :
     (twovec axis1 axis2 a b).run env denv um = Val.twovec axis1 axis2 (a.run env denv um) (b.run env denv um) := by
